@@ -22,7 +22,7 @@ from facts import REPO, Program, extract, show, call_obj, call_args, walk, CALL_
 from e1_paths import CFG
 from report import Check
 
-UNITS = ["src/Db/Db.cpp", "src/Db/DbGrid.cpp", "src/Db/DbLine.cpp", "src/Db/DbHelper.cpp", "src/Db/PtrGeos.cpp",
+UNITS = ["src/Basic/String.cpp", "src/Db/Db.cpp", "src/Db/DbGrid.cpp", "src/Db/DbLine.cpp", "src/Db/DbHelper.cpp", "src/Db/PtrGeos.cpp",
          "src/Db/DbGraphO.cpp", "src/Db/DbMeshTurbo.cpp", "src/Db/DbMeshStandard.cpp"]
 SHAPE_OPS = {"resize", "erase", "push_back", "insert", "clear", "assign", "emplace_back", "pop_back", "remove", "reserve_and_fill"}
 
@@ -419,6 +419,90 @@ def main(tier):
     kprog.load_dir(dh)
     chk.units += [u for u in kprog.units if u not in chk.units]
     uidkinds.rule(kprog, chk, "R7.9", ("src/",), 60)
+    uidkinds.table_rule(prog, chk, "R7.10", 10)
+    # R7.13: what a reader decodes is used.  In the `_deserialize` functions of the Db family every local that only RECEIVES values
+    # (push_back / assignment / output argument) and is never read afterwards is a decoded field that the rebuilt object ignores
+    # (the rank of a role decoded from "z2" and then replaced by "next free rank": the roles are renumbered at reload)
+    n13 = 0
+    for f in sorted(prog.funcs, key=lambda x: (x.file, x.line)):
+        if f.body is None or f.short != "_deserialize":
+            continue
+        locs = {x["d"]: x for x in f.walk() if x["k"] == "VarDecl"}
+        reads = {d_: 0 for d_ in locs}
+        writes = {d_: 0 for d_ in locs}
+        for x in f.walk():
+            if x["k"] != "DeclRefExpr" or x.get("d") not in locs:
+                continue
+            par = f.parent(x)
+            gp = f.parent(par) if par is not None else None
+            wr = False
+            if par is not None:
+                if par["k"] == "MCall" and call_obj(par) is x and (par.get("callee") or "").split("::")[-1] in ("push_back", "resize", "clear", "reserve", "emplace_back", "fill"):
+                    wr = True
+                elif par["k"] in ("Assign",) and par["c"][0] is x and par.get("op") == "=":
+                    wr = True
+                elif par["k"] == "UnOp" and par.get("op") == "&":
+                    # output argument of a record reader = a field of the file; other callees may have outputs nobody needs
+                    callp = gp
+                    while callp is not None and callp["k"] == "Cast":
+                        callp = f.parent(callp)
+                    if callp is not None and callp["k"] in CALL_KINDS and (callp.get("callee") or "").split("::")[-1].startswith(("_recordRead", "_tableRead")):
+                        wr = True
+                    else:
+                        continue
+                elif (par["k"] == "Index" or (par["k"] == "OpCall" and par.get("op") == "[]")) and par["c"][0] is x and gp is not None and \
+                        ((gp["k"] == "Assign" and gp["c"][0] is par and gp.get("op") == "=") or (gp["k"] == "UnOp" and gp.get("op") == "&")):
+                    wr = True
+            if wr:
+                writes[x["d"]] += 1
+            else:
+                reads[x["d"]] += 1
+        for d_, v in sorted(locs.items(), key=lambda kv: kv[1]["n"]):
+            if not writes[d_]:
+                continue
+            n13 += 1
+            ok = reads[d_] > 0
+            if not ok:
+                chk.analysed(f)
+            chk.ob("R7.13", "%s: the decoded local `%s` is used to rebuild the object" % (f.name, v["n"]), f.loc(v), ok,
+                   detail=None if ok else "`%s` receives values read from the file and is never read: the rebuilt object ignores that field" % v["n"],
+                   key="R7.13|%s|%s" % (f.name, v["n"]), nontrivial=not ok)
+    chk.floor("R7.13", n13, 10)
+    # R7.12: names are compared as the caller asked.  In the name-matching helpers (String.cpp) a parameter `caseSensitive` guards the
+    # folding of the case: every toUpper / toLower is executed only when the flag is FALSE (the siblings matchRegexp, matchKeyword,
+    # decodeInString agree); folding under the flag itself makes "Temp" and "TEMP" designate the first column whose name matches
+    from e1_paths import peel_cond
+    n12 = 0
+    for f in sorted(prog.funcs, key=lambda x: (x.file, x.line)):
+        if f.body is None:
+            continue
+        flags = {p_["d"]: p_["n"] for p_ in f.params if "bool" in p_["t"] and "casesensitive" in p_["n"].lower()}
+        if not flags:
+            continue
+        for c in f.calls():
+            if (c.get("callee") or "").split("::")[-1] not in ("toUpper", "toLower", "toupper", "tolower"):
+                continue
+            pol = None
+            child = c
+            for a in f.ancestors(c):
+                if a["k"] == "If" and a["c"][-3] is not None:
+                    core, positive = peel_cond(a["c"][-3])
+                    if core is not None and core["k"] == "DeclRefExpr" and core.get("d") in flags:
+                        in_then = any(y is child or y["i"] == child["i"] for y in walk(a["c"][-2])) if a["c"][-2] is not None else False
+                        pol = positive if in_then else (not positive)
+                        break
+                child = a
+            n12 += 1
+            ok = pol is False
+            chk.analysed(f)
+            chk.ob("R7.12", "%s: the case is folded only when `%s` is false" % (f.name, list(flags.values())[0]), f.loc(c), ok,
+                   detail=None if ok else ("the folding is executed when the flag is TRUE" if pol else "the folding is not guarded by the flag") +
+                   ": with the default (case sensitive) every access by name reaches the first column whose name matches regardless of case",
+                   key="R7.12|%s|%s" % (f.name, (c.get("callee") or "").split("::")[-1]))
+    chk.floor("R7.12", n12, 4)
+    # R7.11: a rank among the active samples never is the sample rank of a Db accessor (c05_skip.compact_counter_rule)
+    import c05_skip
+    c05_skip.compact_counter_rule(prog, chk, "R7.11", ("src/Db/",), 60)
     # R7.5 no state carried from one call to the next through file-statics of the Db sources
     import c10
     c10.scratch_static_rule(prog, chk, ["src/Db/Db.cpp"], "R7.5", 1)
